@@ -731,11 +731,16 @@ func lexSoyDocParam(l *lexer) {
 	// extract the param
 	for {
 		var r = l.next()
-		if isSpaceEOL(r) || r == eof {
+		if r == eof {
+			// nothing was read, so there is nothing to step back over.
+			l.emit(itemIdent)
+			break
+		}
+		if isSpaceEOL(r) {
 			l.pos--
 			l.emit(itemIdent)
 			// don't skip newlines. the outer routine needs to know about it
-			if isSpace(r) || r == eof {
+			if isSpace(r) {
 				l.pos++
 			}
 			l.ignore()
